@@ -49,7 +49,7 @@ PROPS = {
     "C09": dict(suites=[("hist", 100, 4, 1500, 16), ("dup", 1, 4, 2, 8), ("family", 50, 4, 1500, 16), ("pairs", 1, 4, 2, 16), ("clonescope", 1, 4, 2, 16)], corr=["delete", "search", "display"], oracles=["C09", "C01", "C02", "FUN"]),
     "C10": dict(suites=[("hist", 100, 4, 1500, 16), ("dup", 1, 4, 2, 8)], corr=["insert", "delete", "search", "display"], oracles=["FUN", "C09"]),
     "C11": dict(suites=[("parse", 5, 4, 7, 16), ("parsefocus", 7, 4, 9, 16), ("regs", 1, 4, 2, 8)], corr=["parse", "insert"], oracles=["C11"]),
-    "C12": dict(suites=[("scope1", 5, 4, 7, 16), ("single", 300, 4, 6000, 16)], corr=["search"], oracles=["C12"]),
+    "C12": dict(suites=[("scope1", 5, 4, 6, 16), ("single", 300, 4, 6000, 16)], corr=["search"], oracles=["C12"]),
     "C13": dict(suites=[("hist", 60, 4, 1500, 16), ("fromstr", 1, 1, 4, 4), ("cells", 1, 16, 2, 16), ("regs", 1, 4, 2, 8)], corr=["constraint", "insert", "search"], oracles=["C13", "C02", "C03"]),
     "C14": dict(suites=[("parse", 5, 4, 7, 16), ("parsefocus", 7, 4, 9, 16), ("regs", 1, 4, 2, 8)], corr=["parse", "render"], oracles=["C14"]),
     "C15": dict(suites=[("ascii", 100, 4, 1500, 16), ("splitopt", 1, 4, 2, 16), ("prio", 1, 4, 2, 8)], corr=["display"], oracles=["C15"]),
@@ -209,7 +209,15 @@ def run_chunk(work, suite, seed, size, chunk, nchunks, tag):
     rc, out = sh([WFH, "gen", suite, str(seed), str(size), str(chunk), str(nchunks), ops])
     if rc != 0:
         return dict(dir=d, error=f"gen failed rc={rc}: {out[-300:]}")
-    return judge_ops(d, ops)
+    r = judge_ops(d, ops)
+    # disk: a chunk on which nothing was flagged keeps only its verdict (chunk 0 also keeps its files for the samples)
+    if "error" not in r and not r["D"] and not r["O"] and chunk != 0:
+        for n in ("ops.txt", "full.txt", "impl.txt"):
+            try:
+                os.remove(os.path.join(d, n))
+            except OSError:
+                pass
+    return r
 
 
 def judge_ops(d, ops):
@@ -538,6 +546,14 @@ def main():
         hooks="available" if hooks else "unavailable", counters=stats, harness_errors=[e["error"] for e in errors], log=log,
     )
     write_evidence(pid, tier, seed, t0, cov, len(violations))
+    if not violations and not replay:
+        # disk: a clean run keeps only logs and verdicts
+        for r in results:
+            for n in ("ops.txt", "full.txt", "impl.txt"):
+                try:
+                    os.remove(os.path.join(r["dir"], n))
+                except OSError:
+                    pass
     return 1 if violations else 0
 
 
